@@ -2,8 +2,9 @@ from check import run_diff_property
 
 CFG = dict(
     streams=[('h2sm', 1200, 20000, 'http2test')],
-    oracle_ops=set(),
-    http2_ops={'h2sm'},
+    oracle_ops={'h2smrif'},
+    corpus_exec={'d19_trailers_after_early_response.ops': 'http2test'},
+    http2_ops={'h2sm', 'h2smrif'},
     rule=("scripted client against the real serverConn (upstream's deterministic tester): sequences of 3..45 frames over the whole "
           "alphabet — SETTINGS (valid, invalid values, duplicates, ACK with and without outstanding settings), HEADERS for new "
           "requests (with/without END_STREAM, Content-Length, CONNECT, priority incl. self-dependency, handlers that block or "
